@@ -113,6 +113,10 @@ type Noise struct {
 	// module text then starts with `%a1 = type i32`, `%a2 = type %a1`, ... and every use of the type is
 	// spelled with the last name of the chain (LLVM reads such non-struct aliases as the type itself).
 	TypeAlias map[string][]string
+	// HexInts: every third non-negative integer is spelled `u0x...`: typed integer constants wider than i1
+	// (outside vectors) and the integer fields of specialised metadata nodes (LLVM reads an unsigned
+	// hexadecimal literal wherever it reads a decimal one)
+	HexInts bool
 	// LeadingZeros: numbers of unnamed values are written with redundant leading zeros (%01, 002:, @00)
 	LeadingZeros bool
 	// OctalLookalikes (with LeadingZeros): only numbers without the digits 8 and 9 are padded
